@@ -49,7 +49,8 @@ static Dump dump(Sess& S) {
     d.push_back({"pend", std::to_string(e.pend - e.script.begin())});
     d.push_back({"codesep(pbegincodehash)", std::to_string(e.pbegincodehash - e.script.begin())});
     d.push_back({"codesep(m_codeseparator_pos)", std::to_string(e.execdata.m_codeseparator_pos)});
-    d.push_back({"sigbudget(m_validation_weight_left)", std::to_string(e.execdata.m_validation_weight_left)});
+    // only meaningful (and only initialised) in tapscript sessions
+    d.push_back({"sigbudget(m_validation_weight_left)", e.execdata.m_validation_weight_left_init ? std::to_string(e.execdata.m_validation_weight_left) : std::string("-")});
     d.push_back({"opcode_pos", std::to_string(e.opcode_pos)});
     d.push_back({"nOpCount", std::to_string(e.nOpCount)});
     d.push_back({"curr_op_seq", std::to_string(e.curr_op_seq)});
@@ -283,6 +284,7 @@ static void check_c16(const Spec& sp, const std::vector<Tok>& toks, int maxlen, 
             const char* kind = nullptr;
             if (S.s.stack() != R.stack) kind = "stack"; else if (S.s.alt() != R.alt) kind = "altstack";
             else if (S.s.cond_size() != R.cond_size() || S.s.cond_first_false() != R.cond_first_false()) kind = "cond";
+            else if (S.s.env().nOpCount != R.opcount) kind = "opcount";
             if (kind) { rep(std::string("exec-state:") + pk + ";" + kind, std::string("state after exec differs in ") + kind + ": ref stack=" + impl::stack_str(R.stack) + " impl stack=" + impl::stack_str(S.s.stack())); continue; }
             // position and remaining script untouched
             for (const char* f : {"script", "pc", "pend", "curr_op_seq", "history_sizes", "history_contents", "done", "successor", "codesep(pbegincodehash)"}) {
@@ -290,6 +292,15 @@ static void check_c16(const Spec& sp, const std::vector<Tok>& toks, int maxlen, 
                 if (a != b) { rep(std::string("exec-touches:") + f + ";" + pk, std::string("exec changed ") + f + " from " + a + " to " + b); kind = "x"; break; }
             }
             if (kind) continue;
+            // a step followed by an accepted rewind must come back to exactly the post-exec state (exec must not disturb the history)
+            if (!S.s.inst.at_end() && k < nops) {
+                std::string d1 = flat(after);
+                Sess S2; S2.open(sp); for (int i = 0; i < k; i++) S2.s.inst.step();
+                try { S2.s.inst.eval(argv.size(), argv.data()); } catch (const std::exception&) {}
+                if (S2.s.inst.step()) {
+                    if (S2.s.inst.rewind() && flat(dump(S2)) != d1) { rep(std::string("exec-then-step-rewind:") + pk, "after exec, step + rewind does not return to the post-exec state (" + first_diff(dump(S2), after) + " differs)"); continue; }
+                }
+            }
             // continuing the session equals continuing the spliced script
             ref::Err ce = ref::Err::OK; while (!R.at_end()) { ce = R.step(); if (ce != ref::Err::OK) break; } if (ce == ref::Err::OK) ce = R.finish();
             std::string ie; int guard = 0; while (!S.s.inst.at_end() && guard++ < 6000) { ie = S.s.step(); if (ie != "") break; }
